@@ -41,7 +41,7 @@ EVIDENCE = {
 
 def gen_plan(seed: int, run: int, tier: str) -> dict:
     rng = common.rng_for(seed, run, "work")
-    if rng.random() < 0.3:
+    if rng.random() < 0.45:
         return _gen_threads(seed, run, tier, rng)
     nclients = rng.choice([2, 2, 3, 3, 4])
     kinds = [common.weighted(rng, CLIENT_KINDS) for _ in range(nclients)]
@@ -54,6 +54,10 @@ def gen_plan(seed: int, run: int, tier: str) -> dict:
     names = sorted(clients)
     for _ in range(n):
         c = rng.choice(names)
+        if rng.random() < 0.04 and clients[c]["kind"] in ("cached", "raw"):
+            # the storage object is pickled and re-created (spawned worker, deepcopy, checkpoint)
+            clients[c]["ops"].append({"op": "repickle"})
+            continue
         if g.live_studies() and rng.random() < read_rate:
             sh = rng.choice(g.live_studies() + [h for h, s in g.studies.items() if not s["live"]][:1])
             r = rng.random()
@@ -75,7 +79,9 @@ def gen_plan(seed: int, run: int, tier: str) -> dict:
 
 
 def _gen_threads(seed: int, run: int, tier: str, rng: Any) -> dict:
-    kind = rng.choice(["cached", "cached", "grpc(rdb)", "grpc(cached)"])
+    # the proxy's client cache is the same code over any backend: the cheap in-process
+    # backends buy 20-30x more schedules per second than SQLite
+    kind = rng.choice(["cached", "cached", "grpc(rdb)", "grpc(cached)", "grpc(mem)", "grpc(mem)", "grpc(mem)", "grpc(mem)", "grpc(jf-sym)", "grpc(jr)"])
     plan = c03.gen_plan(seed, run, tier)
     # same process for all tasks: threads inside one caching client; make it read-heavy
     for n, t in plan["tasks"].items():
@@ -89,6 +95,11 @@ def _gen_threads(seed: int, run: int, tier: str, rng: Any) -> dict:
     plan["check"] = ID
     plan["cfg"]["deployment"] = kind
     plan["cfg"]["mode"] = "threads"
+    if kind.startswith("grpc("):
+        # replies may be held up and overtake each other; at least two pool threads
+        plan["cfg"]["net_delay"] = rng.choice([0.0, 0.005, 0.02])
+        plan["cfg"]["net_seed"] = rng.getrandbits(20)
+        plan["cfg"]["pool"] = rng.choice([2, 3, 10])
     return plan
 
 
@@ -291,14 +302,27 @@ def _run_clients(plan: dict, sim: sched.Sim, ch: sched.Chooser, dep: deploy.Depl
         raw.remove_session()
 
     def make_client(name: str, c: dict) -> Any:
-        st = storages[name]
-
         def body() -> None:
             for op in c["ops"]:
                 if verdict:
                     return
                 sim.seam("step")
+                st = storages[name]
                 with gate:
+                    if op["op"] == "repickle":
+                        import pickle
+
+                        if hasattr(st, "remove_session"):
+                            st.remove_session()
+                        with sim.atomic():
+                            st2 = pickle.loads(pickle.dumps(st))
+                        inner = getattr(st2, "_backend", st2)
+                        dep.db.storages.append(inner)
+                        storages[name] = st2
+                        sim.count("repickled")
+                        sim.note("repickle", name)
+                        trace.append("%s(%s) repickle" % (name, kinds[name]))
+                        continue
                     if op["op"] == "read_check":
                         read_check(name, st, op["study"], op.get("filters"), op.get("full", True))
                         sim.note("read", name, op["study"])
@@ -319,6 +343,7 @@ def _run_clients(plan: dict, sim: sched.Sim, ch: sched.Chooser, dep: deploy.Depl
                             writes_since_read[other].add(name)
                     trace.append("%s(%s) %s -> %s" % (name, kinds[name], c03._short(op), res[1] if res[0] == "err" else "ok"))
                     sim.note("op", name, op["op"], res[:2] if res[0] == "err" else "ok")
+            st = storages[name]
             if hasattr(st, "remove_session"):
                 st.remove_session()
 
